@@ -617,3 +617,13 @@ pub proof fn lemma_ascii_boundaries(s: Seq<u8>, i: int)
     lemma_boundary_add(s, i, 1);
 }
 } // verus!
+verus! {
+/// a well-formed prefix of well-formed text ends on a character boundary
+pub proof fn lemma_valid_prefix_is_boundary(s: Seq<u8>, k: int)
+    requires valid_utf8(s), 0 <= k <= s.len(), valid_utf8(s.subrange(0, k))
+    ensures is_char_boundary(s, k)
+{
+    lemma_scan_valid(s.subrange(0, k));
+    lemma_scan_prefix(s, k);
+}
+} // verus!
